@@ -806,7 +806,7 @@ class Exec:
             return a.shape[0], (lambda k: basic_index_arr(a, [k])[0])
         if isinstance(itv, SeqVal):
             return z3.Length(itv.s), (lambda k: itv.elem.unpack(itv.s[to_int(k)]))
-        if isinstance(itv, (list, tuple, str)):
+        if isinstance(itv, (list, tuple, str, dict)):
             items = list(itv)
             return len(items), (lambda k: select_concrete(items, k, None))
         raise Unsupported('iteration over %r' % (itv,))
@@ -1457,6 +1457,15 @@ class Exec:
         if isinstance(base, lib.DictVal):
             base.set(idx, v)
             return
+        if isinstance(base, dict):
+            for k2 in list(base):
+                if s_eq(k2, idx) is True:
+                    base[k2] = v
+                    return
+            if is_conc_num(idx) or isinstance(idx, str) or idx is None:
+                base[idx] = v
+                return
+            raise Unsupported('symbolic key store into concrete dict')
         raise Unsupported('item assignment on %r at line %d' % (base, node.lineno))
 
     def fancy_write(self, base, arrs, v, st, node):
